@@ -1,5 +1,6 @@
 import BoltonsVerif.Generated.Src_iterutils_remap
 import BoltonsVerif.C08.SrcTieOps
+import BoltonsVerif.C08.Props
 /-
 C08 — source-translator tie for the callbacks of `boltons.iterutils.remap` and for `get_path` (round 3e).
 
@@ -24,12 +25,12 @@ open PyRtC08 Src.iterutils
 
 /-! ## 2. specification lemmas -/
 
-theorem enumItems_dict (i : Nat) (l : List (Key × Obj)) : enumItems .dict i l = l := by
+theorem enumItems_dict_id (i : Nat) (l : List (Key × Obj)) : enumItems .dict i l = l := by
   induction l generalizing i with
   | nil => rfl
   | cons x r ih => obtain ⟨k, o⟩ := x; simp [enumItems, effKey, ih]
 
-theorem enumItems_seq (kd : Kind) (hk : kd ≠ .dict) (i : Nat) (l : List (Key × Obj)) :
+theorem enumItems_seq_enum (kd : Kind) (hk : kd ≠ .dict) (i : Nat) (l : List (Key × Obj)) :
     enumItems kd i l = pyEnumerate i (l.map Prod.snd) := by
   induction l generalizing i with
   | nil => rfl
@@ -81,12 +82,12 @@ theorem getitemH_eq_hgetChild (h : Heap) (cur : Obj) (seg : Atom) (hp : PlainSeg
       obtain ⟨kd, items⟩ := nd
       cases kd with
       | dict =>
-        simp only [Kind.isSet, enumItems_dict]
+        simp only [Kind.isSet, enumItems_dict_id]
         cases hl : lookupKey seg items <;> simp
       | set => simp [Kind.isSet]
       | fset => simp [Kind.isSet]
       | list =>
-        simp only [Kind.isSet, enumItems_seq .list (by decide)]
+        simp only [Kind.isSet, enumItems_seq_enum .list (by decide)]
         cases seg with
         | int i =>
           have hi : 0 ≤ i := hp
@@ -101,7 +102,7 @@ theorem getitemH_eq_hgetChild (h : Heap) (cur : Obj) (seg : Atom) (hp : PlainSeg
         | float t => exact absurd hp (by simp [PlainSeg])
         | other n => exact absurd hp (by simp [PlainSeg])
       | tuple =>
-        simp only [Kind.isSet, enumItems_seq .tuple (by decide)]
+        simp only [Kind.isSet, enumItems_seq_enum .tuple (by decide)]
         cases seg with
         | int i =>
           have hi : 0 ≤ i := hp
@@ -166,7 +167,7 @@ theorem src_default_enter_eq_model (hin out : Heap) (p : Path) (k : Key) (o : Ob
     | atom a => simp [nodeOf] at hn
     | ref id =>
       cases kd <;>
-        simp [default_enter, gOps, isStrBytesA, kindIn, hn, Kind.isSet, enumItems_dict, enumItems_seq]
+        simp [default_enter, gOps, isStrBytesA, kindIn, hn, Kind.isSet, enumItems_dict_id, enumItems_seq_enum]
 
 /-- the same on the single Python heap (`gOps id`: the instance the self-test runs against CPython), for an
     object of the store -/
@@ -189,7 +190,7 @@ theorem src_default_enter_single_heap (h : Heap) (p : Path) (k : Key) (o : Obj)
         simp only [nodeOf] at hn ⊢
         rw [List.getElem?_append_left hlt]; exact hn
       cases kd <;>
-        simp_all [default_enter, gOps, isStrBytesA, kindIn, Kind.isSet, enumItems_dict, enumItems_seq]
+        simp_all [default_enter, gOps, isStrBytesA, kindIn, Kind.isSet, enumItems_dict_id, enumItems_seq_enum]
 
 /-- the `.item` step of the heap-level machine, for a container met for the first time, expressed through the
     translated `default_enter`: new stack frames, rebuilt heap and registry entry are what the source returns -/
@@ -520,5 +521,355 @@ theorem src_remap_loop_simulates_hstep (c : HCfg) (h : Heap) (root : Obj) (n : N
           exact ⟨ent, _, fun _ => rfl,
             by rw [← hst, ← hn, srcLoop_exit c h root n ent val s s1 k old new kd rest p items nr hst he hn hnew hh,
               contFrom_eq]⟩
+
+/-! ### the invariant behind `StepOK`, and whole runs -/
+
+def newOf : HFrame → Option Nat
+  | .exit _ _ new _ => some new
+  | _ => none
+
+@[simp] theorem filterMap_newOf_item (k : Key) (o : Obj) (l : List HFrame) :
+    (HFrame.item k o :: l).filterMap newOf = l.filterMap newOf := rfl
+@[simp] theorem filterMap_newOf_exit (k : Key) (old new : Nat) (kd : Kind) (l : List HFrame) :
+    (HFrame.exit k old new kd :: l).filterMap newOf = new :: l.filterMap newOf := rfl
+
+theorem lt_of_getElem?_eq_some {α : Type} {l : List α} {i : Nat} {x : α} (h : l[i]? = some x) : i < l.length := by
+  rcases Nat.lt_or_ge i l.length with h1 | h1
+  · exact h1
+  · rw [List.getElem?_eq_none h1] at h; cases h
+
+/-- the blank containers of the exit entries on the stack are blank, pairwise different, and as many as there are
+    frames of collected items -/
+structure LoopInv (s : HSt) : Prop where
+  blank : ∀ k old new kd, HFrame.exit k old new kd ∈ s.stack → s.out[new]? = some ⟨kd, []⟩
+  nodup : (s.stack.filterMap newOf).Nodup
+  depth : s.err = none → (s.stack.filterMap newOf).length = s.nis.length
+
+theorem LoopInv_init (root : Obj) : LoopInv (hinit root) := by
+  constructor <;> simp [hinit, newOf]
+
+theorem LoopInv.stepOK {s : HSt} (hi : LoopInv s) (he : s.err = none) : StepOK s := by
+  intro k old new kd rest hst
+  refine ⟨hi.blank k old new kd (by simp [hst]), ?_⟩
+  have := hi.depth he
+  intro hn
+  simp [hst, hn, newOf] at this
+
+theorem filterMap_newOf_itemFrames (l : List (Key × Obj)) : (itemFrames l).filterMap newOf = [] := by
+  induction l with
+  | nil => rfl
+  | cons x r ih => simpa [itemFrames] using ih
+
+theorem not_exit_mem_itemFrames (l : List (Key × Obj)) (k : Key) (old new : Nat) (kd : Kind) :
+    HFrame.exit k old new kd ∉ itemFrames l := by
+  simp [itemFrames]
+
+@[simp] theorem finishItem_stack2 (c : HCfg) (s : HSt) (rest : List HFrame) (k : Key) (src val : Obj) :
+    (finishItem c s rest k src val).stack = rest := by
+  unfold finishItem; split <;> (try split) <;> simp [appendItem] <;> split <;> simp
+
+@[simp] theorem finishItem_out2 (c : HCfg) (s : HSt) (rest : List HFrame) (k : Key) (src val : Obj) :
+    (finishItem c s rest k src val).out = s.out := by
+  unfold finishItem; split <;> (try split) <;> simp [appendItem] <;> split <;> simp
+
+theorem finishItem_nis_length (c : HCfg) (s : HSt) (rest : List HFrame) (k : Key) (src val : Obj)
+    (he : (finishItem c s rest k src val).err = none) : (finishItem c s rest k src val).nis.length = s.nis.length := by
+  unfold finishItem at he ⊢
+  split at he <;> (try split at he) <;> simp_all [appendItem] <;> (split at he <;> simp_all)
+
+theorem mem_newOf {k : Key} {old new : Nat} {kd : Kind} {l : List HFrame} (h : HFrame.exit k old new kd ∈ l) :
+    new ∈ l.filterMap newOf := by
+  simp only [List.mem_filterMap]
+  exact ⟨_, h, rfl⟩
+
+/-- a state whose stack is a tail of the old one, same rebuilt heap -/
+theorem LoopInv_tail (s s1 : HSt) (fr : HFrame) (rest : List HFrame) (hi : LoopInv s) (hst : s.stack = fr :: rest)
+    (h1 : s1.stack = rest) (ho : s1.out = s.out)
+    (hd : s1.err = none → (rest.filterMap newOf).length = s1.nis.length) : LoopInv s1 := by
+  refine ⟨?_, ?_, ?_⟩
+  · intro k old new kd hm
+    rw [ho]; exact hi.blank k old new kd (by rw [hst]; exact List.mem_cons_of_mem _ (h1 ▸ hm))
+  · rw [h1]
+    have := hi.nodup
+    rw [hst] at this
+    cases fr with
+    | item k o => simpa using this
+    | exit k old new kd => simp at this; exact this.2
+  · rw [h1]; exact hd
+
+theorem exitNode_getElem_ne (kd : Kind) (new : Nat) (items : List (Key × Obj)) (out : Heap) (j : Nat)
+    (hne : j ≠ new) (hj : j < out.length) : (exitNode kd new items out).1[j]? = out[j]? := by
+  unfold exitNode
+  split
+  · simp [List.getElem?_set_ne (Ne.symm hne)]
+  · simp [List.getElem?_append_left hj]
+
+theorem LoopInv_step (c : HCfg) (h : Heap) (root : Obj) (s s1 : HSt) (hi : LoopInv s)
+    (hs : hstep c h root s = some s1) : LoopInv s1 := by
+  cases he : s.err with
+  | some e => simp [hstep, he] at hs
+  | none =>
+  cases hst : s.stack with
+  | nil => simp [hstep, he, hst] at hs
+  | cons fr rest =>
+    have hdep := hi.depth he
+    cases fr with
+    | item k o =>
+      have hcount : (rest.filterMap newOf).length = s.nis.length := by simpa [hst, newOf] using hdep
+      -- every `.item` case that is not an enter is a `finishItem` on a state with the same stack tail / heap / nis
+      have fin : ∀ (s0 : HSt) (src val : Obj), s0.out = s.out → s0.nis = s.nis →
+          LoopInv (finishItem c s0 rest k src val) := fun s0 src val ho hn =>
+        LoopInv_tail s _ _ rest hi hst (by simp) (by simp [ho])
+          (fun he1 => by rw [finishItem_nis_length c s0 rest k src val he1, hn]; exact hcount)
+      cases o with
+      | atom a => simp [hstep, he, hst] at hs; subst hs; exact fin _ _ _ rfl rfl
+      | ref id =>
+        cases hreg : lookup id s.reg with
+        | some v => simp [hstep, he, hst, hreg] at hs; subst hs; exact fin _ _ _ rfl rfl
+        | none =>
+          cases hnd : h[id]? with
+          | none => simp [hstep, he, hst, hreg, hnd] at hs; subst hs; exact fin _ _ _ rfl rfl
+          | some nd =>
+            simp [hstep, he, hst, hreg, hnd] at hs; subst hs
+            have hlt : ∀ j ∈ rest.filterMap newOf, j < s.out.length := by
+              intro j hj
+              simp only [List.mem_filterMap] at hj
+              obtain ⟨fr, hm, hfr⟩ := hj
+              cases fr with
+              | item k o => simp [newOf] at hfr
+              | exit k2 old new kd =>
+                simp [newOf] at hfr; subst hfr
+                exact lt_of_getElem?_eq_some (hi.blank k2 old new kd (by rw [hst]; exact List.mem_cons_of_mem _ hm))
+            refine ⟨?_, ?_, ?_⟩
+            · intro k2 old new kd hm
+              simp only [List.mem_append, List.mem_cons] at hm
+              rcases hm with hm | hm | hm
+              · exact absurd hm (not_exit_mem_itemFrames _ _ _ _ _)
+              · injection hm with _ _ h3 h4; subst h3; subst h4; simp
+              · have hb := hi.blank k2 old new kd (by rw [hst]; exact List.mem_cons_of_mem _ hm)
+                have : new < s.out.length := hlt new (mem_newOf hm)
+                simpa [List.getElem?_append_left this] using hb
+            · have hnd2 : (rest.filterMap newOf).Nodup := by
+                have := hi.nodup; rw [hst] at this; simpa [newOf] using this
+              simp only [List.filterMap_append, filterMap_newOf_itemFrames, List.nil_append, List.filterMap_cons, newOf]
+              refine List.nodup_cons.2 ⟨fun hm => ?_, hnd2⟩
+              exact absurd (hlt _ hm) (by omega)
+            · intro _
+              simp [List.filterMap_append, filterMap_newOf_itemFrames, newOf, hcount]
+    | exit k old new kd =>
+      have hcount : (rest.filterMap newOf).length + 1 = s.nis.length := by simpa [hst, newOf] using hdep
+      cases hn : s.nis with
+      | nil => simp [hn] at hcount
+      | cons x nr =>
+        obtain ⟨p, items⟩ := x
+        have hnd2 : new ∉ rest.filterMap newOf ∧ (rest.filterMap newOf).Nodup := by
+          have := hi.nodup; rw [hst] at this; simpa [newOf] using this
+        have hcount2 : (rest.filterMap newOf).length = nr.length := by simpa [hn] using hcount
+        have hblank : ∀ k2 old2 new2 kd2, HFrame.exit k2 old2 new2 kd2 ∈ rest →
+            (exitNode kd new items s.out).1[new2]? = some ⟨kd2, []⟩ := by
+          intro k2 old2 new2 kd2 hm
+          have hb := hi.blank k2 old2 new2 kd2 (by rw [hst]; exact List.mem_cons_of_mem _ hm)
+          have hne : new2 ≠ new := fun hc => hnd2.1 (hc ▸ mem_newOf hm)
+          have hlt : new2 < s.out.length := lt_of_getElem?_eq_some hb
+          rw [exitNode_getElem_ne kd new items s.out new2 hne hlt]; exact hb
+        cases nr with
+        | nil =>
+          simp [hstep, he, hst, hn] at hs; subst hs
+          exact ⟨fun k2 old2 new2 kd2 hm => hblank k2 old2 new2 kd2 hm, hnd2.2, fun _ => by simpa using hcount2⟩
+        | cons y nr2 =>
+          simp [hstep, he, hst, hn] at hs; subst hs
+          refine ⟨?_, ?_, ?_⟩
+          · intro k2 old2 new2 kd2 hm
+            simp only [finishItem_stack2] at hm
+            simpa using hblank k2 old2 new2 kd2 hm
+          · simpa using hnd2.2
+          · intro he1
+            rw [finishItem_nis_length _ _ _ _ _ _ he1]
+            simpa using hcount2
+
+theorem hrun_of_stop (c : HCfg) (h : Heap) (root : Obj) (s : HSt) (hs : hstep c h root s = none) (n : Nat) :
+    hrun c h root n s = s := by
+  cases n <;> simp [hrun, hs]
+
+theorem hrun_of_step (c : HCfg) (h : Heap) (root : Obj) (s s1 : HSt) (hs : hstep c h root s = some s1) (n : Nat) :
+    hrun c h root (n + 1) s = hrun c h root n s1 := by
+  simp [hrun, hs]
+
+theorem hstep_of_err (c : HCfg) (h : Heap) (root : Obj) (s : HSt) (e : Err) (he : s.err = some e) :
+    hstep c h root s = none := by
+  simp [hstep, he]
+
+/-- the exception the source raises for an error the model records -/
+def excOf : Err → Exc
+  | .typeError => .TypeError
+  | .visitError => .Other
+
+/-- what `fuel = n + 1` iterations of the translated loop give, in terms of the model's runs `hrun n` / `hrun (n+1)` -/
+def LoopResult (c : HCfg) (h : Heap) (root : Obj) (n : Nat) (s : HSt) (val : Option Obj)
+    (r : R Heap (List Obj × List (List Atom × List (Atom × Obj)) × List Atom × List (Obj × Obj) ×
+      List (PyRtC08.Frame Obj Atom) × Option Obj)) : Prop :=
+  match (hrun c h root (n + 1) s).err with
+  | some e => r = .error (excOf e)
+  | none =>
+    if (hrun c h root n s).stack = [] then
+      ∃ ent1 v1, r = .ok ((ent1, (hrun c h root n s).nis, (hrun c h root n s).path, regOf (hrun c h root n s).reg, [], v1),
+          (hrun c h root n s).out) ∧
+        (s.stack ≠ [] → v1 = some (hrun c h root n s).value) ∧ (s.stack = [] → v1 = val)
+    else r = .error .OutOfFuel
+
+/-- A WHOLE RUN of the translated loop is the model's `hrun`: the exception for the error the model records within
+    `n + 1` steps; else, if the model is done after `n` steps, the source returns with the model's collected items,
+    path, registry, rebuilt heap and (after at least one iteration) last value; else the fuel was too small. -/
+theorem src_remap_loop_eq_hrun (c : HCfg) (h : Heap) (root : Obj) (n : Nat) :
+    ∀ (s : HSt) (ent : List Obj) (val : Option Obj), LoopInv s → s.err = none →
+      LoopResult c h root n s val
+        (srcLoop c h root (n + 1) ent s.nis s.path (regOf s.reg) (s.stack.map frameOf) val s.out) := by
+  induction n with
+  | zero =>
+    intro s ent val hi he
+    have hstp := src_remap_loop_simulates_hstep c h root 0 ent val s he (hi.stepOK he)
+    cases hs : hstep c h root s with
+    | none =>
+      rw [hs] at hstp
+      have hnil : s.stack = [] := by
+        cases hst : s.stack with
+        | nil => rfl
+        | cons fr rest =>
+          exfalso
+          cases fr with
+          | item k o =>
+            cases o with
+            | atom a => simp [hstep, he, hst] at hs
+            | ref id =>
+              cases hreg : lookup id s.reg <;> cases hnd : h[id]? <;> simp [hstep, he, hst, hreg, hnd] at hs
+          | exit k old new kd =>
+            cases hn : s.nis with
+            | nil => simp [hstep, he, hst, hn] at hs
+            | cons x nr => cases nr <;> simp [hstep, he, hst, hn] at hs
+      simp only at hstp
+      rw [hnil] at hstp
+      simp only [LoopResult, hrun_of_stop c h root s hs, he, hnil, if_true]
+      exact ⟨ent, val, hstp, by simp, fun _ => rfl⟩
+    | some s1 =>
+      rw [hs] at hstp
+      simp only at hstp
+      obtain ⟨ent1, v1, _, heq⟩ := hstp
+      have hne : s.stack ≠ [] := by
+        intro hnil; simp [hstep, he, hnil] at hs
+      have e1 : hrun c h root (0 + 1) s = s1 := by simp [hrun, hs]
+      have e0 : hrun c h root 0 s = s := rfl
+      simp only [LoopResult, e1, e0]
+      rw [heq]
+      cases he1 : s1.err with
+      | some e => cases e <;> simp [contFromV, he1, excOf]
+      | none =>
+        simp only [contFromV, he1, hne, if_false]
+        simp only [srcLoop]; rw [remap_loop.loop1]
+  | succ n ih =>
+    intro s ent val hi he
+    have hstp := src_remap_loop_simulates_hstep c h root (n + 1) ent val s he (hi.stepOK he)
+    cases hs : hstep c h root s with
+    | none =>
+      rw [hs] at hstp
+      have hnil : s.stack = [] := by
+        cases hst : s.stack with
+        | nil => rfl
+        | cons fr rest =>
+          exfalso
+          cases fr with
+          | item k o =>
+            cases o with
+            | atom a => simp [hstep, he, hst] at hs
+            | ref id =>
+              cases hreg : lookup id s.reg <;> cases hnd : h[id]? <;> simp [hstep, he, hst, hreg, hnd] at hs
+          | exit k old new kd =>
+            cases hn : s.nis with
+            | nil => simp [hstep, he, hst, hn] at hs
+            | cons x nr => cases nr <;> simp [hstep, he, hst, hn] at hs
+      simp only at hstp
+      rw [hnil] at hstp
+      simp only [LoopResult, hrun_of_stop c h root s hs, he, hnil, if_true]
+      exact ⟨ent, val, hstp, by simp, fun _ => rfl⟩
+    | some s1 =>
+      rw [hs] at hstp
+      simp only at hstp
+      obtain ⟨ent1, v1, hv1, heq⟩ := hstp
+      have hne : s.stack ≠ [] := by
+        intro hnil; simp [hstep, he, hnil] at hs
+      have hi1 := LoopInv_step c h root s s1 hi hs
+      simp only [LoopResult, hrun_of_step c h root s s1 hs]
+      rw [heq]
+      cases he1 : s1.err with
+      | some e =>
+        have hstop := hstep_of_err c h root s1 e he1
+        simp only [hrun_of_stop c h root s1 hstop, he1, contFromV]
+        cases e <;> simp [excOf]
+      | none =>
+        have := ih s1 ent1 v1 hi1 he1
+        simp only [LoopResult] at this
+        simp only [contFromV, he1]
+        cases hge : (hrun c h root (n + 1) s1).err with
+        | some e => rw [hge] at this; simpa using this
+        | none =>
+          rw [hge] at this
+          simp only at this ⊢
+          by_cases hdone : (hrun c h root n s1).stack = []
+          · rw [if_pos hdone] at this ⊢
+            obtain ⟨ent2, v2, hr, hva, hvb⟩ := this
+            refine ⟨ent2, v2, hr, fun _ => ?_, fun hc => absurd hc hne⟩
+            by_cases h1nil : s1.stack = []
+            · have hstop : hstep c h root s1 = none := by simp [hstep, he1, h1nil]
+              rw [hrun_of_stop c h root s1 hstop]
+              rw [hvb h1nil]; exact hv1 h1nil
+            · exact hva h1nil
+          · rw [if_neg hdone] at this ⊢
+            exact this
+
+theorem hrun_succ_right (c : HCfg) (h : Heap) (root : Obj) (n : Nat) (s : HSt) :
+    hrun c h root (n + 1) s = hrun c h root 1 (hrun c h root n s) := by
+  induction n generalizing s with
+  | zero => rfl
+  | succ n ih =>
+    cases hs : hstep c h root s with
+    | none => simp [hrun, hs]
+    | some s1 => rw [hrun_of_step c h root s s1 hs, ih s1, hrun_of_step c h root s s1 hs]
+
+/-- `remap(root, visit)` - the translated initialisation, main loop and `return value` with the translated default
+    callbacks - returns what the model's machine ends with (`hfinal`: value and rebuilt heap), whenever the model's
+    run ends without error -/
+theorem src_remap_eq_hfinal (c : HCfg) (h : Heap) (root : Obj) (hdone : (hfinal c h root).stack = [])
+    (herr : (hfinal c h root).err = none) :
+    remap_loop (hbound h + 1) [] root (visitOf c) (default_enter (gOps fun _ => h)) (default_exit (gOps id)) false
+      c.reraise Atom.none = .ok ((hfinal c h root).value, (hfinal c h root).out) := by
+  have hr := src_remap_loop_eq_hrun c h root (hbound h) (hinit root) [] none (LoopInv_init root) rfl
+  have hstop : hstep c h root (hfinal c h root) = none := by simp [hstep, herr, hdone]
+  have hnext : hrun c h root (hbound h + 1) (hinit root) = hfinal c h root := by
+    rw [hrun_succ_right]; exact hrun_of_stop c h root _ hstop 1
+  simp only [LoopResult, hnext] at hr
+  rw [show hrun c h root (hbound h) (hinit root) = hfinal c h root from rfl] at hr
+  simp only [herr, hdone, if_true] at hr
+  obtain ⟨ent1, v1, heq, hv, _⟩ := hr
+  have hv1 : v1 = some (hfinal c h root).value := hv (by simp [hinit])
+  subst hv1
+  simp only [srcLoop, hinit, regOf, List.map_nil, List.map_cons, frameOf] at heq
+  simp only [remap_loop, heq]
+
+/-- … and so, through `heap_remap_eq_rec`, what the memoised bottom-up recursion `recRoot` returns: for EVERY heap
+    (sharing, cycles), container root and non-raising visit callback, the SOURCE loop returns the recursion's
+    value and rebuilt heap -/
+theorem src_remap_eq_rec (c : HCfg) (h : Heap) (rid : Nat) (nd : Node) (hnr : NoRaise c) (hnd : h[rid]? = some nd) :
+    ∃ st v, recRoot c h (.ref rid) (hbound h) = some (st, v) ∧
+      remap_loop (hbound h + 1) [] (.ref rid) (visitOf c) (default_enter (gOps fun _ => h)) (default_exit (gOps id))
+        false c.reraise Atom.none = .ok (v, st.out) := by
+  obtain ⟨st, v, hrec, hfin⟩ := heap_remap_eq_rec c h rid nd hnr hnd
+  refine ⟨st, v, hrec, ?_⟩
+  have := src_remap_eq_hfinal c h (.ref rid) (by rw [hfin]) (by rw [hfin])
+  rw [this, hfin]
+
+/-- non-vacuity: `x = [7]; [x, x]` (a shared list) with the keep-everything visit -/
+example : remap_loop (hbound exShared + 1) [] (.ref 0) (visitOf ⟨hkeepVisit, true⟩)
+    (default_enter (gOps fun _ => exShared)) (default_exit (gOps id)) false true Atom.none
+    = .ok ((hfinal ⟨hkeepVisit, true⟩ exShared (.ref 0)).value, (hfinal ⟨hkeepVisit, true⟩ exShared (.ref 0)).out) :=
+  src_remap_eq_hfinal _ _ _ (by decide) (by decide)
 
 end C08
